@@ -35,6 +35,13 @@ CHECKS = {
                      "Transport's Sink and ~1400 partitions of a five-frame stream through its Stream; FramingTrace.tla decodes each performative with the "
                      "reference decoder and evaluates the same clauses on what the code wrote / read.",
                 note="trusted: harness frame-header parser, performative extent finder and payload pattern; Transport is driven through its public bind / set_*_max_frame_size API"),
+    "C12": dict(technique="TLC model check of the 2.4.6 connection state machine (ConnLife.tla, safety + leads-to under fairness); TLC-enumerated event scripts (ConnGen.tla) executed lock-step against the real client and listener; recorded traces validated by the TLA+ observer (Endpoint.tla / EndpointTrace.tla)",
+                design="4/C12",
+                text="MC: header first, one open before anything else, at most one close, nothing after it, no action on frames outside OPENED, peer close ~> close "
+                     "hold for every interleaving of the modelled endpoint with an arbitrary peer and application (pipelined states and DISCARDING included). "
+                     "Conformance: all event sequences up to depth 4 (thorough 5) over a 16-event alphabet, ~10 400 scripts per run, client and listener, are run against "
+                     "the real engines on a paused clock; every frame / call / quiescence point is judged by the observer's C12_* clauses.",
+                note="trusted: harness frame parser and lock-step quiescence detection; error *classes* compared, not exact variants"),
     "C20": dict(technique="TLC-generated values and encodings; slice/reader/size/value-tree entry points compared by the harness, tree and bytes judged by the TLA+ decoder",
                 design="4/C20",
                 text="For every generated case: serialized_size = |to_vec|; from_slice and from_reader (chunk sizes 1,2,3,7,16,whole) agree and stop at the "
